@@ -78,8 +78,21 @@ Definition shape_ok (c : cs) (e : cevx) : bool :=
     && Bool.eqb (has is_setup l) (reader c' && negb (reader c))
     && implb (reader c) (reader c').
 
+(* arbitrary-mode facts of C03 about a single endpoint: a side that has given up (terminal
+   state) has closed its transport or will when its pending time.After goroutine runs; a
+   transport error always leaves the side in a terminal state with the transport closed *)
+Definition gave_up_closes (c : pcs) : bool :=
+  implb (terminal_state (p_st c)) (p_wclosed c || p_d500 c || p_d1000 c).
+Definition connerr_ends (c : cs) (e : cevx) : bool :=
+  match ev e with
+  | CConnErr => let c' := fst (cstep c e) in terminal_state (st c') && wclosed c' && negb (armed c')
+  | _ => true
+  end.
+
 Definition p_shape (s : ps) : bool :=
-  negb (p_dead (ps_c s)) && forallb (shape_ok (to_cs (ps_c s))) (events_for (to_cs (ps_c s))).
+  negb (p_dead (ps_c s)) && gave_up_closes (ps_c s)
+  && forallb (fun e => shape_ok (to_cs (ps_c s)) e && connerr_ends (to_cs (ps_c s)) e)
+             (events_for (to_cs (ps_c s))).
 
 Definition table_of (r : role) (idk : bool) : table ps * bool :=
   explore ps_beq hash_ps pnext 400 (pinit r idk).
